@@ -91,6 +91,23 @@ def login (cfg : Cfg) (st : State) (now : Nat) (backend : Str → Str → Str) (
         else ⟨e.user, ⟨st.succ, failed⟩, false, true⟩                     -- cached success
       else backendPath cfg st.succ failed now backend l pw (some (digest e.time l pw))  -- digest keeps the *old* salt
 
+
+/-- `login` when the back-end raises instead of answering (file briefly missing, server unreachable): an answer that
+    the caches can give is given; otherwise the error propagates (`none`).  The caches are left as the look-ups left
+    them: the sweep has run and an expired successful entry of this login has been deleted — nothing is added. -/
+def loginFault (cfg : Cfg) (st : State) (now : Nat) (l pw : Str) : Option Result × State :=
+  let failed := sweep cfg now st.failed
+  if (failed (l, digest cfg.failSalt l pw)).isSome then
+    (some ⟨[], ⟨st.succ, failed⟩, false, true⟩, ⟨st.succ, failed⟩)
+  else
+    match st.succ l with
+    | none => (none, ⟨st.succ, failed⟩)
+    | some e =>
+      if digest e.time l pw = e.digest then
+        if age now e.time > cfg.succExp then (none, ⟨upd st.succ l none, failed⟩)
+        else (some ⟨e.user, ⟨st.succ, failed⟩, false, true⟩, ⟨st.succ, failed⟩)
+      else (none, ⟨st.succ, failed⟩)
+
 /-- login-name mapping, ASCII part (`str.lower`/`str.upper`) + `split('@')[0]` -/
 def mapLogin (lc uc strip : Bool) (l : Str) : Str :=
   let l := if lc then l.map Char.toLower else l
